@@ -14,7 +14,7 @@ Qed.
 
 Lemma run_batch_perm st q rs rs' :
   rs ≡ₚ rs' → hosts_distinct rs → same_query q rs → run_batch st rs = run_batch st rs'.
-Proof. intros. unfold run_batch. f_equal. by eapply fold_agg_step_perm. Qed.
+Proof. intros. unfold run_batch, aggregate. f_equal. by eapply fold_agg_step_perm. Qed.
 
 (* ---------------------------------------------------------------- streaming = batch *)
 Lemma size_ins_row m r : (size m ≤ size (ins_row m r))%nat.
@@ -31,55 +31,101 @@ Proof.
 Qed.
 
 (* finalizeResult reads of the previous output only res.Rows, and only while the row map is empty *)
-Lemma fin_out_irrel st ub a o o' :
-  (size (a_rows a) = 0%nat → o_rows o = o_rows o') → fin_out st ub a o = fin_out st ub a o'.
+Lemma fin_out_irrel st ub m o o' :
+  (size m = 0%nat → o_rows o = o_rows o') → fin_out st ub m o = fin_out st ub m o'.
 Proof.
   intros H. unfold fin_out. case_bool_decide as Hs; [|done].
   simpl. by rewrite (H Hs).
 Qed.
 
-(* the output rows stay nil as long as the row map is empty *)
-Definition out_inv (s : acc) : Prop := size (a_rows s.1) = 0%nat → o_rows s.2 = [].
+Lemma insert_by_length lt x l : length (insert_by lt x l) = S (length l).
+Proof. induction l as [|y l IH]; simpl; [done|]. destruct (lt x y); simpl; by rewrite ?IH. Qed.
+Lemma sort_rows_length lt l : length (sort_rows lt l) = length l.
+Proof. induction l as [|x l IH]; simpl; [done|]. by rewrite insert_by_length, IH. Qed.
+Lemma sorted_rows_len st m : zlen (sorted_rows st m) = Z.of_nat (size m).
+Proof. unfold zlen, sorted_rows. by rewrite sort_rows_length. Qed.
 
-Lemma out_inv_finalize st ub s : out_inv s → out_inv (finalize st ub s).
+(* BinTime does not run: Hits.Total is left alone *)
+Lemma binned_none st m : size m = 0%nat ∨ st_bin st = 0 → binned st m = None.
 Proof.
-  unfold out_inv, finalize, fin_out; simpl. intros H Hs.
-  rewrite bool_decide_eq_true_2 by done. simpl. by apply H.
+  intros [H|H]; unfold binned.
+  - by rewrite bool_decide_eq_true_2.
+  - case_bool_decide; [done|]. by rewrite H.
+Qed.
+(* BinTime runs: Hits.Total is overwritten with a value that does not depend on its previous value *)
+Lemma binned_some st m : size m ≠ 0%nat → st_bin st ≠ 0 → is_Some (binned st m).
+Proof.
+  intros H1 H2. unfold binned. rewrite bool_decide_eq_false_2 by done.
+  rewrite sorted_rows_len.
+  destruct (Z.eqb_spec (st_bin st) 0); [done|]. destruct (Z.eqb_spec (Z.of_nat (size m)) 0); [lia|].
+  simpl. by eexists.
 Qed.
 
-Lemma out_inv_agg_step s r : out_inv s → out_inv (agg_step s r).
+(* the aggregate without the hit count *)
+Definition erase (a : agg) : agg := with_hits a 0.
+Lemma erase_step a r : erase (agg_step_core a r) = erase (agg_step_core (erase a) r).
+Proof. unfold erase, with_hits, agg_step_core. by destruct (hr_err r). Qed.
+Lemma erase_with_hits a h : erase (with_hits a h) = erase a.
+Proof. done. Qed.
+Lemma erase_rows a b : erase a = erase b → a_rows a = a_rows b.
+Proof. intros H. by apply (f_equal a_rows) in H. Qed.
+Lemma erase_hits_eq a b : erase a = erase b → a_hits a = a_hits b → a = b.
+Proof. destruct a, b. unfold erase, with_hits. simpl. intros [=] ?. by subst. Qed.
+Lemma with_hits_id a : with_hits a (a_hits a) = a.
+Proof. by destruct a. Qed.
+Lemma erase_step_congr a b r : erase a = erase b → erase (agg_step_core a r) = erase (agg_step_core b r).
+Proof. intros H. by rewrite erase_step, H, <-erase_step. Qed.
+
+Lemma step_rows_size a r : (size (a_rows a) ≤ size (a_rows (agg_step_core a r)))%nat.
 Proof.
-  unfold out_inv, agg_step; simpl. intros H Hs. apply H.
-  unfold agg_step_core in Hs. destruct (hr_err r); simpl in Hs; [done|].
-  pose proof (size_merge_map (a_rows s.1) (hr_rows r)). lia.
+  unfold agg_step_core. destruct (hr_err r); simpl; [done|]. apply size_merge_map.
 Qed.
 
-Lemma stream_step_fst st s r : (stream_step st s r).1 = agg_step_core s.1 r.
-Proof. unfold stream_step. by destruct (hr_err r). Qed.
+(* streaming state vs. the plain aggregate of the same replies: equal up to the hit count; the hit count is
+   equal as long as BinTime has not run; the output rows stay nil as long as the row map is empty *)
+Definition sinv (st : stmt) (s : acc) (A : agg) : Prop :=
+  erase s.1 = erase A ∧
+  (size (a_rows A) = 0%nat ∨ st_bin st = 0 → a_hits s.1 = a_hits A) ∧
+  (size (a_rows A) = 0%nat → o_rows s.2 = []).
 
-Lemma out_inv_stream_step st s r : out_inv s → out_inv (stream_step st s r).
+Lemma sinv_step st s A r : sinv st s A → sinv st (stream_step st s r) (agg_step_core A r).
 Proof.
-  intros H. unfold stream_step. destruct (hr_err r).
-  - by apply out_inv_agg_step.
-  - by apply out_inv_finalize, out_inv_agg_step.
+  intros (E & Hh & Ho). pose proof (step_rows_size A r) as Hmono.
+  assert (size (a_rows (agg_step_core A r)) = 0%nat ∨ st_bin st = 0 → s.1 = A) as Heq.
+  { intros [H|H]; apply erase_hits_eq; try done; apply Hh; [left; lia|by right]. }
+  unfold stream_step. destruct (hr_err r) as [e|] eqn:He.
+  - unfold agg_step; simpl. split; [by apply erase_step_congr|]. split.
+    + intros P. by rewrite (Heq P).
+    + intros P. apply Ho. lia.
+  - unfold finalize, agg_step. split; [exact (erase_step_congr _ _ r E)|]. simpl. split.
+    + intros P. rewrite (Heq P). unfold fin_hits. by rewrite binned_none.
+    + intros P. rewrite (erase_rows _ _ (erase_step_congr _ _ r E)).
+      unfold fin_out. rewrite bool_decide_eq_true_2 by done. simpl. apply Ho. lia.
 Qed.
 
-Lemma fold_stream_step st rs s :
-  out_inv s →
-  (fold_left (stream_step st) rs s).1 = fold_left agg_step_core rs s.1 ∧
-  out_inv (fold_left (stream_step st) rs s).
+Lemma fold_stream_step st rs s A :
+  sinv st s A → sinv st (fold_left (stream_step st) rs s) (fold_left agg_step_core rs A).
 Proof.
-  revert s. induction rs as [|r rs IH]; intros s Hs; simpl; [done|].
-  destruct (IH (stream_step st s r)) as [E I]; [by apply out_inv_stream_step|].
-  by rewrite E, stream_step_fst.
+  revert s A. induction rs as [|r rs IH]; intros s A H; simpl; [done|].
+  by apply IH, sinv_step.
 Qed.
 
 Lemma run_stream_eq_batch st rs : run_stream st rs = run_batch st rs.
 Proof.
-  unfold run_stream, run_batch.
-  destruct (fold_stream_step st rs acc0) as [E I]; [done|].
-  rewrite fold_agg_step_split. unfold finalize. rewrite E. simpl. f_equal.
-  apply fin_out_irrel. intros Hs. rewrite I; [done|]. by rewrite E.
+  unfold run_stream, run_batch, aggregate.
+  destruct (fold_stream_step st rs acc0 agg0) as (E & Hh & Ho).
+  { split; [done|]. split; done. }
+  rewrite fold_agg_step_split. simpl.
+  set (S := fold_left (stream_step st) rs acc0) in *.
+  set (A := fold_left agg_step_core rs agg0) in *.
+  pose proof (erase_rows _ _ E) as R.
+  unfold finalize. simpl. rewrite R. f_equal.
+  - destruct (decide (size (a_rows A) = 0%nat ∨ st_bin st = 0)) as [P|P].
+    + by rewrite (erase_hits_eq _ _ E (Hh P)).
+    + destruct (binned_some st (a_rows A)) as [b Hb]; [tauto..|].
+      unfold fin_hits. rewrite Hb.
+      transitivity (with_hits (erase S.1) (zlen b)); [done|]. by rewrite E.
+  - apply fin_out_irrel. intros Hs. by rewrite (Ho Hs).
 Qed.
 
 (* every partial result handed to the sender is the finalization (limit 100) of the aggregate so far,
